@@ -19,7 +19,7 @@ from .terms import Lin, Term, c, is_c, is_top, top
 BUILTINS = {
     "int", "str", "len", "round", "float", "divmod", "sum", "map", "filter", "list", "dict", "set", "tuple",
     "isinstance", "hasattr", "type", "hash", "open", "bool", "bytes", "sorted", "min", "max", "abs", "any", "all",
-    "range", "print", "object", "super", "getattr", "repr", "enumerate", "zip", "frozenset", "bytearray", "hex", "slice", "format", "reversed", "next", "iter", "chr", "ord", "pow",
+    "range", "print", "object", "super", "getattr", "setattr", "memoryview", "repr", "enumerate", "zip", "frozenset", "bytearray", "hex", "slice", "format", "reversed", "next", "iter", "chr", "ord", "pow",
     "ValueError", "KeyError", "RuntimeError", "IndexError", "TypeError", "Exception", "NotImplementedError",
     "OSError", "BaseException", "UnicodeDecodeError", "LookupError", "AttributeError", "OverflowError",
     "ConnectionError", "StopIteration", "AssertionError", "ArithmeticError", "ZeroDivisionError", "FileNotFoundError",
@@ -157,6 +157,15 @@ def call_ext(I: Any, name: str, args: List[Term], kwargs: Dict[str, Term], st: A
     if name in EXC_NAMES or (name.startswith("builtins.") and name.split(".")[1] in __import__("sa.interp", fromlist=["EXC_PARENTS"]).EXC_PARENTS):
         return ("exc", name.split("builtins.")[-1], tuple(args), where, None)
 
+    if name == "builtins.memoryview" and len(args) == 1 and not kwargs:
+        src_ = buffer_content(args[0], st)
+        sq_ = T.to_seq(src_) if _textlike(src_) else None
+        if sq_ is not None and sq_[1] in ("raw", "b"):
+            return src_          # a view of the bytes: indexing, slicing, .hex(), .tobytes(), .cast('B') read the same bytes
+        return top("memoryview of something that is not bytes")
+    if name == "builtins.setattr" and len(args) == 3 and not kwargs and is_c(args[1]) and isinstance(args[1][1], str):
+        I.store_attr(args[0], args[1][1], args[2], st, ctx, node)
+        return c(None)
     if name == "types.MappingProxyType" and len(args) == 1 and not kwargs:
         return args[0]          # a read-only view of the same mapping (this model never writes through it)
     if name == "builtins.object.__new__" and len(args) == 1 and not kwargs and args[0][0] == "class":
@@ -1618,6 +1627,15 @@ def make_map(I: Any, f: Term, it: Term, st: Any, ctx: Any, node: ast.AST) -> Ter
 # ---------------------------------------------------------------------------
 def format_value(I: Any, x: Term, spec: str, st: Any, ctx: Any, node: ast.AST) -> Term:
     where = ctx.loc(node)
+    if spec != "" and isinstance(x, tuple) and len(x) == 4 and x[0] == "ite":
+        # the formatted text of a choice is the choice of the formatted texts
+        from .interp import decided_by as _dec
+        d_ = _dec(st.pc, x[1]) if st is not None else None
+        if d_ is not None:
+            return format_value(I, x[2] if d_ else x[3], spec, st, ctx, node)
+        fa_, fb_ = format_value(I, x[2], spec, st, ctx, node), format_value(I, x[3], spec, st, ctx, node)
+        if T.is_seq(fa_) and T.is_seq(fb_) and fa_[1] == fb_[1]:
+            return fa_ if fa_ == fb_ else ("seq", fa_[1], (("alt", x[1], fa_, fb_),))
     if spec == "" and isinstance(x, tuple) and x[:2] == ("app", "ipaddress.IPv4Address") and len(x) == 3:
         return text_of(app("inet_ntoa", [x[2]]))
     if spec == "%H:%M:%S" and isinstance(x, tuple) and x[:2] == ("app", "datetime.time") and all(isinstance(a, tuple) and a[:1] == ("kw",) and a[1] in ("hour", "minute", "second") for a in x[2:]):
@@ -2006,6 +2024,8 @@ def call_method(I: Any, recv: Term, name: str, args: List[Term], kwargs: Dict[st
             return call_method(I, ho_b.fields["buf"], name, [buffer_content(a_, st) for a_ in args], kwargs, st, ctx, node, awaited)
         ho_b.fields["buf"] = top(f"bytearray.{name} is not modelled")
         return top(f"bytearray.{name} is not modelled")
+    if _textlike(recv) and name in ("cast", "tobytes", "toreadonly") and (name != "cast" or (len(args) == 1 and is_c(args[0]) and args[0][1] in ("B", "b", "c"))):
+        return recv          # (memoryview methods on a view of bytes: the same bytes, in whatever form the analysis holds them)
     s = T.to_seq(recv) if _textlike(recv) else None
     if s is not None:
         r = text_method(I, s, name, args, kwargs, st, ctx, node)
@@ -2218,6 +2238,10 @@ def text_method(I: Any, s: Term, name: str, args: List[Term], kwargs: Dict[str, 
             return c(r_)
         if isinstance(r_, (list, tuple)) and all(isinstance(x, str) for x in r_):
             return ("tuple", tuple(c(x) for x in r_)) if isinstance(r_, tuple) else ("clist", tuple(c(x) for x in r_))
+    if kind in ("raw", "b") and name in ("cast", "tobytes", "toreadonly") and (name != "cast" or (len(args) == 1 and is_c(args[0]) and args[0][1] in ("B", "b", "c"))):
+        return s            # (memoryview methods on a view of bytes: the same bytes)
+    if kind in ("raw", "b") and name == "release" and not args:
+        return c(None)
     if name == "format":
         if all(a[0] == "L" for a in s[2]):
             return str_format(I, "".join(a[1] for a in s[2]), args, kwargs, st, ctx, node)
